@@ -28,6 +28,7 @@ type c05Tpl struct {
 	file  string
 	tag   string
 	props []c05Prop
+	content string // include: static content handed to the component's slots
 }
 type c05Comp struct {
 	file     string
@@ -55,6 +56,8 @@ func c05Coq(ts []*c05Tpl) string {
 	}
 	t, next := ts[0], c05Coq(ts[1:])
 	switch t.kind {
+	case "slotmark": // a <slot> of the component: it shows static content only, the model of props and scopes does not see it
+		return next
 	case "print":
 		return fmt.Sprintf("(IPrint %d %s %s)", t.id, coqList(t.views, func(v c04View) string {
 			return map[string]string{"text": "VText ", "attr": "VAttr "}[v.kind] + coqBytes(v.path)
@@ -71,6 +74,10 @@ func c05Src(ts []*c05Tpl) string {
 			sb.WriteString(c04Src([]*c04Tpl{{kind: "print", id: t.id, views: t.views}}))
 			continue
 		}
+		if t.kind == "slotmark" {
+			sb.WriteString(t.tag)
+			continue
+		}
 		attrs := ""
 		for _, p := range t.props {
 			switch p.kind {
@@ -83,9 +90,9 @@ func c05Src(ts []*c05Tpl) string {
 			}
 		}
 		if t.kind == "include" {
-			fmt.Fprintf(&sb, `<template include="%s"%s></template>`, t.file, attrs)
+			fmt.Fprintf(&sb, `<template include="%s"%s>%s</template>`, t.file, attrs, t.content)
 		} else {
-			fmt.Fprintf(&sb, `<%s%s></%s>`, t.tag, attrs, t.tag)
+			fmt.Fprintf(&sb, `<%s%s>%s</%s>`, t.tag, attrs, t.content, t.tag)
 		}
 	}
 	return sb.String()
@@ -209,7 +216,13 @@ func (g *c05Gen) body(depth int, files []string, allowTags bool) []*c05Tpl {
 			if allowTags && g.r.Intn(3) == 0 {
 				t.kind, t.tag = "tag", c05Tags[f]
 			}
+			// static content handed to the component's slots: the props and variables of the component are the same
+			// before and after a slot that shows it
+			t.content = Pick(g.r, []string{"", "", "<b>content</b>", "text", `<template #foot><i>f</i></template><u>d</u>`, `<template v-slot:foot><i>f</i></template>`})
 			out = append(out, t)
+		}
+		if g.r.Intn(3) == 0 {
+			out = append(out, &c05Tpl{kind: "slotmark", tag: Pick(g.r, []string{"<slot></slot>", "<slot>fb</slot>", `<slot name="foot"></slot>`, `<slot name="foot">ff</slot><slot></slot>`, `<div><slot></slot></div>`})})
 		}
 		out = append(out, g.print())
 	}
